@@ -45,10 +45,9 @@ def handle (toks : List String) : String :=
       match decodeText bytes with
       | none => "BADLINE utf8"
       | some (text, wellFormed) =>
-        -- the model-side comparisons are list algorithms whose cost grows quickly with the length: they are run on
-        -- contents of up to 256 bytes (the theorem lexString_jsonQuote covers every length; the specification clause
-        -- below is evaluated on every content)
-        let small := bytes.length ≤ 256
+        -- the model-side comparisons are list algorithms: they are run on contents of up to 64 KiB (the theorem
+        -- lexString_jsonQuote covers every length; the specification clause below is evaluated on every content)
+        let small := bytes.length ≤ 65536
         let quoted := if small then hexOfBytes (String.ofList (jsonQuoteUnits (decodeUnits bytes))).toUTF8.toList else q
         let lexOK := !small || lexString (jsonQuote text ++ ")\n})".toList) == some (text, ")\n})".toList)
         let a := if quoted != q then "MODELDIFF json.Marshal-model " ++ quoted
